@@ -1,5 +1,132 @@
 package harness
 
+import (
+	"regexp"
+	"sort"
+	"strings"
+)
+
 // drainRaces collects race-detector reports written since the last call
 // (race build only; see race_on.go).
 func drainRaces() []string { return drainRaceLogs() }
+
+type raceAccess struct {
+	header  string
+	frames  []string // function names, innermost first
+	files   []string
+	harness bool
+	fn      string // the agent function that made the access
+}
+
+var buildDirRe = regexp.MustCompile(`/tmp/upfsim-build\.[A-Za-z0-9]+/`)
+
+// parseRace splits a report into its two accesses and classifies each: an
+// access is the harness's own when it is made by the simulator goroutine, by an
+// ephemeral probe goroutine or through the white-box bridge file.
+func parseRace(rep string) (a [2]raceAccess, ok bool) {
+	rep = buildDirRe.ReplaceAllString(rep, "")
+	n := -1
+	for _, ln := range strings.Split(rep, "\n") {
+		t := strings.TrimSpace(ln)
+		switch {
+		case strings.HasPrefix(t, "Read at ") || strings.HasPrefix(t, "Write at ") || strings.HasPrefix(t, "Previous read at ") || strings.HasPrefix(t, "Previous write at "):
+			n++
+			if n > 1 {
+				return a, true
+			}
+			a[n].header = t
+			if strings.Contains(t, "main goroutine") {
+				a[n].harness = true
+			}
+		case strings.HasPrefix(t, "Goroutine ") || t == "":
+			if n >= 1 && (strings.HasPrefix(t, "Goroutine ")) {
+				n = 2 // creation stacks follow: stop collecting
+			}
+		case n == 0 || n == 1:
+			if strings.HasPrefix(ln, "      ") {
+				a[n].files = append(a[n].files, t)
+			} else {
+				a[n].frames = append(a[n].frames, t)
+			}
+		}
+	}
+	if a[0].header == "" || a[1].header == "" {
+		return a, false
+	}
+	for i := range a {
+		for k, f := range a[i].frames {
+			file := ""
+			if k < len(a[i].files) {
+				file = a[i].files[k]
+			}
+			if strings.Contains(f, "zzverif/vsim.Ephemeral") || strings.Contains(file, "zz_verif_bridge.go") || strings.Contains(f, "zzverif/harness.") {
+				a[i].harness = true
+			}
+			if a[i].fn == "" && strings.Contains(file, "pfcpiface/") && !strings.Contains(file, "zz_verif_bridge.go") && !strings.Contains(f, "zzverif/") {
+				a[i].fn = shortFn(f)
+			}
+		}
+		if a[i].fn == "" && len(a[i].frames) > 0 {
+			for _, f := range a[i].frames {
+				if !strings.HasPrefix(f, "runtime.") && !strings.HasPrefix(f, "sync") {
+					a[i].fn = shortFn(f)
+					break
+				}
+			}
+		}
+	}
+	return a, true
+}
+
+func shortFn(f string) string {
+	f = strings.TrimSuffix(f, "()")
+	f = strings.TrimPrefix(f, "github.com/omec-project/upf-epc/")
+	return f
+}
+
+// raceViolations turns the agent-vs-agent reports into violations of prop and
+// returns how many reports were dropped as harness-side.
+func raceViolations(prop string, reps []string) (vs []Violation, dropped int) {
+	for _, rep := range reps {
+		a, ok := parseRace(rep)
+		if !ok || a[0].harness || a[1].harness {
+			dropped++
+			continue
+		}
+		// the signature names the owners (receiver types) of the two accessing
+		// functions: which pair of functions the runtime reports first for an
+		// unguarded object depends on what the process reported before
+		fns := []string{ownerOf(a[0].fn), ownerOf(a[1].fn)}
+		sort.Strings(fns)
+		msg := buildDirRe.ReplaceAllString(strings.TrimSpace(rep), "")
+		vs = append(vs, Violation{Prop: prop, Sig: "data-race:" + fns[0] + "<->" + fns[1], Msg: "the race detector reports two agent goroutines touching the same memory with no lock or channel between them:\n" + firstLines(msg, 40)})
+	}
+	return
+}
+
+// ownerOf reduces "pkg.(*T).method.func1" to "pkg.(*T)" and "pkg.fn.func1" to "pkg.fn".
+func ownerOf(fn string) string {
+	if i := strings.Index(fn, ")."); i >= 0 {
+		return fn[:i+1]
+	}
+	parts := strings.Split(fn, ".")
+	if len(parts) > 2 {
+		return strings.Join(parts[:2], ".")
+	}
+	return fn
+}
+
+// raceSigCompatible: two data-race signatures name at least one common owner.
+func raceSigCompatible(a, b string) bool {
+	if !strings.HasPrefix(a, "data-race:") || !strings.HasPrefix(b, "data-race:") {
+		return false
+	}
+	for _, x := range strings.Split(strings.TrimPrefix(a, "data-race:"), "<->") {
+		for _, y := range strings.Split(strings.TrimPrefix(b, "data-race:"), "<->") {
+			if x == y {
+				return true
+			}
+		}
+	}
+	return false
+}
